@@ -1892,3 +1892,132 @@ def translate_gs_hosp(repo):
         "  if negb ((n =? length (nth 0 H []))%nat && (m =? length H)%nat) then None else",
         "  match gen_hosp_loop fuel gen_hosp_init with Some st_ => Some (gen_hosp_out fixer st_) | None => None end.",
         "End GenHosp.", ""])
+
+# ---- elicitation_voting.py (winner selection) and Irving's small methods ----
+
+def translate_elicitvoting(repo):
+    """elicitation_voting.py: BaseElicitationVoting.__init__ / scf (winner selection shared by lambda-PRV and k-ARV), the two rules' scf
+    (score, then the shared selection) and KARV.score (column sums of the simulated profile)"""
+    src = open(os.path.join(repo, "socialchoicekit", "elicitation_voting.py")).read()
+    mod = ast.parse(src)
+    base = _find(mod.body, ast.ClassDef, "BaseElicitationVoting")
+    meths = [x.name for x in base.body if isinstance(x, ast.FunctionDef)]
+    if meths != ["__init__", "scf"]: _fail(base, "__init__ and scf expected in BaseElicitationVoting")
+    ib = [U(x) for x in _body(_find(base.body, ast.FunctionDef, "__init__"))]
+    g = re.fullmatch(r"self\.index_fixer = (-?\d+) if zero_indexed else (-?\d+)", ib[1]) if len(ib) == 3 else None
+    if not (g and ib[0] == "self.tie_breaker = tie_breaker" and ib[2] == "check_tie_breaker(self.tie_breaker)"): _fail(base, "BaseElicitationVoting.__init__ shape")
+    winners, scf = tr_scf(_find(base.body, ast.FunctionDef, "scf"), True)
+    for cname in ("LambdaPRV", "KARV"):
+        cls = _find(mod.body, ast.ClassDef, cname)
+        if [U(b) for b in cls.bases] != ["BaseElicitationVoting"]: _fail(cls, "subclass of BaseElicitationVoting expected")
+        f = _find(cls.body, ast.FunctionDef, "scf")
+        ps = [a.arg for a in f.args.args]
+        if [U(x) for x in _body(f)] != ["score = self.score(%s, %s)" % (ps[1], ps[2]), "return super().scf(score)"]: _fail(f, "%s.scf: score, then the shared winner selection expected" % cname)
+    ks = _find(_find(mod.body, ast.ClassDef, "KARV").body, ast.FunctionDef, "score")
+    ps = [a.arg for a in ks.args.args]
+    b = [U(x) for x in _body(ks)]
+    g2 = re.fullmatch(r"(\w+) = self\.get_simulated_cardinal_profile\(%s, %s\)" % (ps[1], ps[2]), b[0]) if len(b) == 2 else None
+    if not (g2 and b[1] == "return np.sum(%s, axis=0)" % g2.group(1)): _fail(ks, "KARV.score: column sums of the simulated profile expected")
+    return "\n".join(["(* GENERATED by harness/translate.py from elicitation_voting.py (winner selection of lambda-PRV / k-ARV, KARV.score). Do not edit. *)",
+        "From Coq Require Import ZArith QArith List Bool String.", "Import ListNotations.", "From SCK Require Import Voting GenLib.", "From SCKGen Require Import ScoringGen.", "Local Open Scope Z_scope.", "",
+        "Definition gen_ev_fixer (zero_indexed : bool) : Z := if zero_indexed then (%s)%%Z else (%s)%%Z." % (g.group(1), g.group(2)),
+        "Definition gen_ev_winners (score : list Q) (fixer : Z) : list Z :=", "  " + winners + ".",
+        "Definition gen_ev_scf (score : list Q) (fixer : Z) (tie_breaker : string) (oracle : nat) : outcome :=",
+        "  gen_break_tie (gen_ev_winners score fixer) tie_breaker true oracle.",
+        "(* KARV.score: np.sum(v_tilde, axis=0) over the simulated profile with m columns *)",
+        "Definition gen_karv_score (m : nat) (v_tilde : list (list Q)) : list Q := map (fun j => fold_left (fun a row => Qred (a + nth j row 0%Q)%Q) v_tilde 0%Q) (seq 0 m).", ""])
+
+
+def _method(cls, name, static):
+    for f in cls.body:
+        if isinstance(f, ast.FunctionDef) and f.name == name:
+            decs = [U(d) for d in f.decorator_list]
+            if decs != (["staticmethod"] if static else []): _fail(f, "unexpected decorators %r" % decs)
+            return f
+    raise TErr("method %s not found" % name)
+
+class IrvE:
+    """expressions over a rotation (list of pairs), 0-based indices, the two integer valuation matrices"""
+    def __init__(self, rot, r, V1, V2): self.rot, self.r, self.V1, self.V2 = rot, r, V1, V2
+    def idx(self, e):      # nat index expressions: i, (i + 1) % r, (i - 1) % r
+        if isinstance(e, ast.Name): return e.id
+        if isinstance(e, ast.BinOp) and isinstance(e.op, ast.Mod) and is_name(e.right, self.r) and isinstance(e.left, ast.BinOp) and isinstance(e.left.left, ast.Name) and _intconst(e.left.right) == 1:
+            i = e.left.left.id
+            if isinstance(e.left.op, ast.Add): return "((%s + 1) mod %s)%%nat" % (i, self.r)
+            if isinstance(e.left.op, ast.Sub): return "((%s + %s - 1) mod %s)%%nat" % (i, self.r, self.r)      # Python's % is non-negative: (i - 1) % r = (i + r - 1) mod r
+        _fail(e, "unsupported index")
+    def comp(self, e):     # rotation[idx][0 / 1]  -> nat
+        if (isinstance(e, ast.Subscript) and _intconst(e.slice) in (0, 1) and isinstance(e.value, ast.Subscript) and is_name(e.value.value, self.rot)):
+            return "(%s (nth %s %s (O, O)))" % ("fst" if _intconst(e.slice) == 0 else "snd", self.idx(e.value.slice), self.rot)
+        if isinstance(e, ast.Name): return e.id
+        _fail(e, "rotation[i][0] / rotation[i][1] expected")
+    def val(self, e):      # int(V[a, b]) -> Z ;  sums and differences
+        if isinstance(e, ast.Call) and is_name(e.func, "int") and len(e.args) == 1: return self.val(e.args[0])
+        if isinstance(e, ast.Subscript) and isinstance(e.value, ast.Name) and e.value.id in (self.V1, self.V2) and isinstance(e.slice, ast.Tuple) and len(e.slice.elts) == 2:
+            return "(vget %s %s %s)" % ("V1" if e.value.id == self.V1 else "V2", self.comp(e.slice.elts[0]), self.comp(e.slice.elts[1]))
+        if isinstance(e, ast.BinOp) and isinstance(e.op, (ast.Add, ast.Sub)): return "(%s %s %s)" % (self.val(e.left), "+" if isinstance(e.op, ast.Add) else "-", self.val(e.right))
+        _fail(e, "unsupported value expression")
+
+def translate_irvsmall(repo):
+    src = open(os.path.join(repo, "socialchoicekit", "deterministic_matching.py")).read()
+    cls = [c for c in ast.parse(src).body if isinstance(c, ast.ClassDef) and c.name == "Irving"]
+    if not cls: raise TErr("class Irving not found")
+    cls = cls[0]
+    out = ["(* GENERATED by harness/translate.py from Irving.rotation_weight / stable_matching_value / eliminate_rotations (deterministic_matching.py). Do not edit. *)",
+           "From Coq Require Import Arith ZArith List Bool.", "Import ListNotations.", "From SCK Require Import Irving.", "Local Open Scope Z_scope.", ""]
+    # ---- rotation_weight
+    f = _method(cls, "rotation_weight", True); ps = [a.arg for a in f.args.args]
+    if len(ps) != 3: _fail(f, "rotation_weight(rotation, v1, v2) expected")
+    ROT, V1, V2 = ps; b = _body(f)
+    if len(b) != 5: _fail(f, "five statements expected in rotation_weight")
+    g = re.fullmatch(r"(\w+) = len\(%s\)" % ROT, U(b[0])); g2 = re.fullmatch(r"(\w+) = 0", U(b[1]))
+    if not (g and g2): _fail(b[0], "r = len(rotation); ans = 0 expected")
+    Rn, ANS = g.group(1), g2.group(1)
+    loop = b[2]
+    if not (isinstance(loop, ast.For) and isinstance(loop.target, ast.Name) and U(loop.iter) == "range(%s)" % Rn and not loop.orelse): _fail(loop, "for i in range(r) expected")
+    e = IrvE(ROT, Rn, V1, V2); steps = []
+    for st in loop.body:
+        if not (isinstance(st, ast.AugAssign) and isinstance(st.op, ast.Add) and is_name(st.target, ANS)): _fail(st, "ans += ... expected")
+        steps.append("let %s := %s + %s in" % (ANS, ANS, e.val(st.value)))
+    if U(b[3]) != "%s *= -1" % ANS or U(b[4]) != "return %s" % ANS: _fail(b[3], "ans *= -1; return ans expected")
+    out += ["Definition gen_rotation_weight (V1 V2 : list (list Z)) (%s : list (nat * nat)) : Z :=" % ROT, "  let %s := length %s in" % (Rn, ROT), "  let %s := 0 in" % ANS,
+            "  let %s := fold_left (fun (%s : Z) (%s : nat) => %s %s) (seq 0 %s) %s in" % (ANS, ANS, loop.target.id, " ".join(steps), ANS, Rn, ANS),
+            "  let %s := %s * -1 in %s." % (ANS, ANS, ANS), ""]
+    # ---- stable_matching_value
+    f = _method(cls, "stable_matching_value", True); ps = [a.arg for a in f.args.args]; SM, V1, V2 = ps; b = _body(f)
+    if len(b) != 3 or U(b[0]) != "ans = 0" or U(b[2]) != "return ans": _fail(f, "ans = 0; loop; return ans expected")
+    loop = b[1]
+    if not (isinstance(loop, ast.For) and isinstance(loop.target, ast.Tuple) and len(loop.target.elts) == 2 and is_name(loop.iter, SM) and len(loop.body) == 1): _fail(loop, "for m, w in stable_matching expected")
+    mn, wn = [x.id for x in loop.target.elts]; e = IrvE("_", "_", V1, V2); st = loop.body[0]
+    if not (isinstance(st, ast.AugAssign) and isinstance(st.op, ast.Add) and is_name(st.target, "ans")): _fail(st, "ans += ... expected")
+    out += ["Definition gen_stable_matching_value (V1 V2 : list (list Z)) (%s : list (nat * nat)) : Z :=" % SM,
+            "  fold_left (fun (ans : Z) (p_ : nat * nat) => let %s := fst p_ in let %s := snd p_ in ans + %s) %s 0." % (mn, wn, e.val(st.value), SM), ""]
+    # ---- eliminate_rotations
+    f = _method(cls, "eliminate_rotations", False); ps = [a.arg for a in f.args.args]; _, SM, ROTS = ps; b = _body(f)
+    g = re.fullmatch(r"(\w+) = list\(%s\)" % SM, U(b[0])) if len(b) == 3 else None
+    if not (g and U(b[2]) == "return %s" % g.group(1)): _fail(f, "current = list(stable_matching); loop; return current expected")
+    CUR = g.group(1); loop = b[1]
+    if not (isinstance(loop, ast.For) and isinstance(loop.target, ast.Name) and is_name(loop.iter, ROTS) and len(loop.body) == 2): _fail(loop, "for rotation in rotations: r = len(rotation); for i in range(r) expected")
+    ROT = loop.target.id; g = re.fullmatch(r"(\w+) = len\(%s\)" % ROT, U(loop.body[0]))
+    inner = loop.body[1]
+    if not (g and isinstance(inner, ast.For) and isinstance(inner.target, ast.Name) and U(inner.iter) == "range(%s)" % g.group(1) and len(inner.body) == 4): _fail(loop, "inner loop with four statements expected")
+    Rn = g.group(1); I = inner.target.id; s1, s2, s3, s4 = inner.body
+    g1 = re.fullmatch(r"(\w+) = %s\[%s\]" % (ROT, I), U(s1))
+    if not g1: _fail(s1, "pair = rotation[i] expected")
+    PAIR = g1.group(1)
+    if not (isinstance(s2, ast.If) and U(s2.test) == "%s not in %s" % (PAIR, CUR) and len(s2.body) == 1 and isinstance(s2.body[0], ast.Raise) and not s2.orelse): _fail(s2, "if pair not in current: raise expected")
+    g3 = re.fullmatch(r"(\w+) = %s\.index\(%s\)" % (CUR, PAIR), U(s3))
+    if not g3: _fail(s3, "pair_index = current.index(pair) expected")
+    PI = g3.group(1); e = IrvE(ROT, Rn, "_", "_")
+    ok = (isinstance(s4, ast.Assign) and isinstance(s4.targets[0], ast.Subscript) and is_name(s4.targets[0].value, CUR) and is_name(s4.targets[0].slice, PI) and isinstance(s4.value, ast.Tuple) and len(s4.value.elts) == 2)
+    if not ok: _fail(s4, "current[pair_index] = (.., ..) expected")
+    newpair = "(%s, %s)" % (e.comp(s4.value.elts[0]), e.comp(s4.value.elts[1]))
+    out += ["(* None = the ValueError 'rotation is not exposed'; `x in list` / list.index(x) are memp / the first position *)",
+            "Definition gen_eliminate_rotations (%s : list (nat * nat)) (%s : list (list (nat * nat))) : option (list (nat * nat)) :=" % (SM, ROTS),
+            "  fold_left (fun (cur_ : option (list (nat * nat))) (%s : list (nat * nat)) => let %s := length %s in" % (ROT, Rn, ROT),
+            "    fold_left (fun (cur_ : option (list (nat * nat))) (%s : nat) => match cur_ with None => None | Some %s =>" % (I, CUR),
+            "      let %s := nth %s %s (O, O) in" % (PAIR, I, ROT),
+            "      if negb (memp %s %s) then None else" % (PAIR, CUR),
+            "      let %s := match pindex_of %s %s with Some k_ => k_ | None => O end in" % (PI, PAIR, CUR),
+            "      Some (upd %s %s %s) end) (seq 0 %s) cur_) %s (Some %s)." % (CUR, PI, newpair, Rn, ROTS, SM), ""]
+    return "\n".join(out)
